@@ -59,49 +59,89 @@ def outcomeEq : Spec.Outcome Nat BGeom → Spec.Outcome Nat BGeom → Bool
   | .panic, .panic => true
   | _, _ => false
 
-def judgeGT (kind : String) (gt rhs : Tok) : String :=
+structure GTV where
+  cls : String
+  spec : Option String
+  diff : Option String
+
+/-- verdict on one `g.Transform(t)` answer `res` (and, when given, the log of the calls of `t`) -/
+def gtEval (kind : String) (g : BGeom) (res : Tok) (callLog : Option (List (Pt UInt64))) : Option GTV :=
+  match implOutcome res with
+  | none => none
+  | some out =>
+    let vs := Spec.vertices g
+    -- the transformer as a function of the vertex, and whether that description is exact
+    let (t, exact, ktag) : Option (TF Nat UInt64) × Bool × String :=
+      if kind = "nil" then (none, true, "nil")
+      else if kind = "p" then (some tPure, true, "p")
+      else
+        let k := (kind.drop 1).toString.toNat?.getD 0
+        let v := vs[k]?
+        (some (tAt v k), !(match v with | some v => (vs.take k).contains v | none => false), "c")
+    let m := transform t g
+    let expectFail := match t with
+      | none => false
+      | some t => match Spec.mapAll t vs with | .error _ => true | .ok _ => false
+    let cls := s!"gt-{geomClass g}-{ktag}-{if expectFail then "err" else "ok"}"
+    if !(noNil g) then
+      -- nil members are outside the property; only the model is compared
+      some { cls := s!"gt-nilmember-{ktag}", spec := none,
+             diff := if outcomeEq (modelOutcome m) out then none else some s!"model-differs impl={" ".intercalate (res.take 3)}" }
+    else if !exact then
+      -- duplicate of the failing vertex earlier in the traversal: check the counting semantics directly
+      let k := (kind.drop 1).toString.toNat?.getD 0
+      let okc := match callLog with | some l => l == vs.take (k+1) | none => true
+      some { cls := cls ++ "-dup", diff := none,
+             spec := if outcomeEq out (.err k) && okc then none
+                     else some s!"k-th-call-fails-but-result-is {" ".intercalate (res.take 2)}" }
+    else
+      match Spec.transformSpecB t g out Geom.beq with
+      | some why =>
+        let pm := if res.head? == some "panic" then " " ++ " ".intercalate res else ""
+        some { cls := cls, spec := some s!"{why}{pm}", diff := none }
+      | none =>
+        let wantCalls := match t with | none => [] | some t => Spec.expectedCalls t vs
+        match callLog with
+        | some l =>
+          if l != wantCalls then
+            some { cls := cls, diff := none,
+                   spec := some s!"transformer-not-called-on-the-vertices-in-order got={l.length} want={wantCalls.length}" }
+          else some { cls := cls, spec := none,
+                      diff := if outcomeEq (modelOutcome m) out then none else some s!"model-differs impl={" ".intercalate (res.take 3)}" }
+        | none => some { cls := cls, spec := none,
+                         diff := if outcomeEq (modelOutcome m) out then none else some s!"model-differs impl={" ".intercalate (res.take 3)}" }
+
+/-- the harness's in-place mutation: bit 8 of every coordinate flipped -/
+def flipGeom (g : BGeom) : BGeom := Geom.map (fun u => u ^^^ 0x100) g
+
+def judgeGT (kindFlags : String) (gt rhs : Tok) : String :=
+  let kind := ((kindFlags.splitOn "@").headD "")
+  let lay := if kindFlags.contains '@' then "-shared" else ""
   match Proto.pGeom 64 gt with
   | none => "DIFF gt-bad parse-error-input"
   | some (g, _) =>
     match sectionsOf rhs "|" with
-    | [res, flags, calls] =>
-      match implOutcome res, parsePairs (calls.drop 2) with
-      | some out, some callLog =>
-        let vs := Spec.vertices g
-        -- the transformer as a function of the vertex, and whether that description is exact
-        let (t, exact, ktag) : Option (TF Nat UInt64) × Bool × String :=
-          if kind = "nil" then (none, true, "nil")
-          else if kind = "p" then (some tPure, true, "p")
-          else
-            let k := (kind.drop 1).toString.toNat?.getD 0
-            let v := vs[k]?
-            (some (tAt v k), !(match v with | some v => (vs.take k).contains v | none => false), "c")
-        let m := transform t g
-        let expectFail := match t with
-          | none => false
-          | some t => match Spec.mapAll t vs with | .error _ => true | .ok _ => false
-        let cls := s!"gt-{geomClass g}-{ktag}-{if expectFail then "err" else "ok"}"
-        if !(noNil g) then
-          -- nil members are outside the property; only the model is compared
-          if outcomeEq (modelOutcome m) out then s!"OK gt-nilmember-{ktag}" else s!"DIFF gt-nilmember-{ktag} model-differs impl={" ".intercalate res}"
-        else if !exact then
-          -- duplicate of the failing vertex earlier in the traversal: check the counting semantics directly
-          let k := (kind.drop 1).toString.toNat?.getD 0
-          if outcomeEq out (.err k) && callLog == vs.take (k+1) then s!"OK {cls}-dup"
-          else s!"SPEC {cls}-dup k-th-call-fails-but-result-is {" ".intercalate (res.take 2)}"
-        else
-          match Spec.transformSpecB t g out Geom.beq with
-          | some why =>
-            let pm := if res.head? == some "panic" then " " ++ " ".intercalate res else ""
-            s!"SPEC {cls} {why}{pm}"
+    | [res, flags, calls, again] =>
+      match parsePairs (calls.drop 2), gtEval kind g res none with
+      | some callLog, some _ =>
+        match gtEval kind g res (some callLog), gtEval kind (flipGeom g) again none with
+        | some v1, some v2 =>
+          let cls := v1.cls ++ lay
+          match v1.spec with
+          | some why => s!"SPEC {cls} {why}"
           | none =>
             if flags.contains "in=changed" then s!"SPEC {cls} input-geometry-was-modified"
             else if flags.contains "alias=yes" then s!"SPEC {cls} output-shares-memory-with-input"
-            else
-              let wantCalls := match t with | none => [] | some t => Spec.expectedCalls t vs
-              if callLog != wantCalls then s!"SPEC {cls} transformer-not-called-on-the-vertices-in-order got={callLog.length} want={wantCalls.length}"
-              else if outcomeEq (modelOutcome m) out then s!"OK {cls}"
-              else s!"DIFF {cls} model-differs impl={" ".intercalate (res.take 3)}"
+            else if flags.contains "rep=diff" then s!"SPEC {cls} identical-call-repeated-gives-another-result"
+            else if flags.contains "late=changed" then s!"SPEC {cls} earlier-result-changed-after-later-calls"
+            else match v2.spec with
+              | some why => s!"SPEC {cls} after-in-place-mutation-of-the-input: {why}"
+              | none =>
+                match v1.diff, v2.diff with
+                | some d, _ => s!"DIFF {cls} {d}"
+                | _, some d => s!"DIFF {cls} after-in-place-mutation: {d}"
+                | none, none => s!"OK {cls}"
+        | _, _ => s!"DIFF gt-bad cannot-parse-answer {" ".intercalate (again.take 4)}"
       | _, _ => s!"DIFF gt-bad cannot-parse-answer {" ".intercalate (rhs.take 4)}"
     | _ => s!"DIFF gt-bad malformed-answer {" ".intercalate (rhs.take 4)}"
 
@@ -242,10 +282,15 @@ def tagsOK (tags : String) (recs : List SRRec) (h : Heap UInt64 XP) : Bool :=
       c == 'B' || (inited && c == 'I') || (!inited && c == 'F')
 
 def judgeHist (lhs rhs : Tok) : String :=
-  match sectionsOf lhs "|", sectionsOf rhs ";" with
+  let lsecs := sectionsOf lhs "|"
+  match lsecs.take 3, sectionsOf rhs ";" with
   | [_, tsec, csec], (("wgs" :: [w]) :: secs) =>
     match w.toNat?, parseNats (tsec.drop 1), parseCalls (csec.drop 1) with
     | some wgs, some tnats, some calls =>
+      -- transformers built between calls (4th section: k, index of the call before which k is built)
+      let lateKs : List Nat := match lsecs[3]? with
+        | some ls => (pairUp ((parseNats (ls.drop 1)).getD [])).map (·.1)
+        | none => []
       let recs := secs.filterMap parseSR
       let orc : Oracle := { recs := secs.filterMap fun s =>
         match s with
@@ -262,18 +307,25 @@ def judgeHist (lhs rhs : Tok) : String :=
       let callSecs := secs.filter (·.head? == some "call")
       let anyHop := calls.any fun (k, _, _) => needsHop heap0 (pool k).src (pool k).dst
       let anyAxis := recs.any fun r => r.sr.axis != enu
-      let base := "hist" ++ (if anyHop then "-hop" else "-nohop") ++ (if anyAxis then "-axis" else "")
+      let base := "hist" ++ (if anyHop then "-hop" else "-nohop") ++ (if anyAxis then "-axis" else "") ++
+        (if lateKs.isEmpty then "" else "-latebuild")
       if callSecs.length != calls.length then s!"DIFF {base} call-count-mismatch" else
       -- walk the history
       -- a DIFF does not stop the walk: a later SPEC failure on the same line takes precedence
       let rec go (st : TState UInt64 XP) (cs : List (Nat × UInt64 × UInt64)) (ss : List Tok) (i : Nat)
           (anyErr : Bool) (ncalled : Nat) (diff : Option String) : String :=
         match cs, ss with
-        | (k, x, y) :: cs', ("call" :: _ :: built :: fbuilt :: _tagBefore :: rest) :: ss' =>
+        | (k, x, y) :: cs', ("call" :: _ :: built :: fbuilt :: tagBefore :: rest) :: ss' =>
           match splitCall rest with
           | none => s!"DIFF {base} malformed-call-section call={i}"
           | some (r, f, tagAfter, xd) =>
-            if built != fbuilt then
+            -- building transformers (before this call) must not have touched any SR
+            let diff := diff <|> (if tagsOK tagBefore recs st.heap then none
+              else some s!"DIFF {base} SR-state-differs-from-model before-call={i} tags={tagBefore}")
+            if built != fbuilt && lateKs.contains k && (built == "nil" || fbuilt == "nil") && (built == "ok" || fbuilt == "ok") then
+              -- NewTransform's nil-if-Equal answer flipped after a constructor ran (noted, outside the property)
+              go st cs' ss' (i+1) anyErr ncalled diff
+            else if built != fbuilt then
               s!"SPEC {base} NewTransform-differs-from-fresh call={i} pooled={built} fresh={fbuilt}"
             else if r == ["nocall"] then go st cs' ss' (i+1) anyErr ncalled diff
             else if r.head? == some "panic" then
